@@ -31,7 +31,10 @@ import (
 	"verifharness/internal/vt"
 )
 
-func init() { register("responses", responsesMain) }
+func init() {
+	register("responses", responsesMain)
+	register("dnsrace", dnsRaceMain)
+}
 
 type letterRec struct {
 	L    string `json:"l"`
@@ -137,6 +140,7 @@ type respRun struct {
 	Answered int          `json:"answered"` // engine Response counter
 	Seen     int          `json:"seen"`     // requests / calls the target saw
 	Variant  string       `json:"variant"`  // plain | debug (debug-level logger, answlog all, httptrace dump+trace)
+	Downs    int          `json:"downs"`    // connections that met the target while it was away (informational / machinery sanity)
 	Faults   int          `json:"faults"`   // handshake-level faults the TLS target injected (informational / machinery sanity)
 	Fatal    bool         `json:"fatal"`    // the documented fatal condition is being provoked
 	Mix      bool         `json:"mix"`
@@ -220,8 +224,9 @@ func grpcAmmo(letters []string) string {
 }
 
 type respPlan struct {
-	tls     bool // handshake-level letter: the run goes to the TLS fault target, keep-alive off
-	sub     int  // n+1: the enumerated substr bounds against a header value of n bytes (one instance); 0: not such a run
+	avail   string // availability history: the target goes away like this (avreset | avhole) and comes back; staged start-up
+	tls     bool   // handshake-level letter: the run goes to the TLS fault target, keep-alive off
+	sub     int    // n+1: the enumerated substr bounds against a header value of n bytes (one instance); 0: not such a run
 	debug   bool
 	gun     string
 	posts   string
@@ -241,6 +246,36 @@ func repeat(l string, n int) []string {
 }
 
 const shots = 30
+
+// availability runs: 20 rps for 3 s; instance 1 at once, instance 2 after 300 ms; the target goes away with the first
+// sample and is back 1.8 s after the start (nothing is decided from these times)
+const availShots = 60
+
+func availPoolYAML(id, gunType, ammoType, ammoFile, target, gunExtra string) string {
+	return fmt.Sprintf(`pools:
+  - id: "%s"
+    ammo:
+      type: %s
+      file: %s
+    result:
+      type: discard
+    gun:
+      type: %s
+      target: %s
+%s    rps:
+      - type: const
+        ops: 20
+        duration: 3s
+    startup:
+      - type: once
+        times: 1
+      - type: const
+        ops: 0
+        duration: 300ms
+      - type: once
+        times: 1
+`, id, ammoType, ammoFile, gunType, target, gunExtra)
+}
 
 // runLimit is the driver's own limit for one engine run (normal: 0.1 .. 5 s, tens of seconds when the machine is
 // overloaded).  A run that hits it is repeated once, alone; only a second hit is recorded as the run's result.
@@ -286,6 +321,21 @@ func planAll(mixes int, rnd *rand.Rand, h2 bool) []respPlan {
 	for _, l := range []string{"c0", "c5", "c14", "gtoobig"} {
 		plans = append(plans, respPlan{gun: "grpc", posts: "none", letters: repeat(l, shots), debug: true})
 		plans = append(plans, respPlan{gun: "grpc/scenario", posts: "none", letters: repeat(l, shots), debug: true})
+	}
+	// availability histories: up -> away (connections reset / black-holed) -> up, the 2nd instance is created while away
+	for _, g := range []string{"http", "http/scenario", "connect", "grpc", "grpc/scenario"} {
+		po := "none"
+		if g == "http/scenario" {
+			po = "all"
+		}
+		for _, av := range []string{"avreset", "avhole"} {
+			plans = append(plans, respPlan{gun: g, posts: po, letters: repeat(av, availShots), avail: av})
+		}
+	}
+	if h2 {
+		for _, av := range []string{"avreset", "avhole"} {
+			plans = append(plans, respPlan{gun: "http2", posts: "none", letters: repeat(av, availShots), avail: av})
+		}
 	}
 	// var/header modifiers: every enumerated (a, b) of SubstrCases(n) against header values of n bytes
 	for _, n := range []int{0, 1, 2, 3, 5, 12} {
@@ -412,6 +462,9 @@ func runPlan(idx int, p respPlan, t *respTargets, root string) respRun {
 	res := respRun{Run: idx, Gun: p.gun, Posts: p.posts, Shots: shots, Inst: 2, AmmoS: p.letters, Fatal: p.fatal, Mix: p.mix,
 		Samples: []respSample{}, Variant: "plain", Kind: "letters", Cases: []modCase{}}
 	casePrefix := fmt.Sprintf("r%d_", idx)
+	if p.avail != "" {
+		res.Shots = availShots
+	}
 	if p.sub > 0 {
 		res.Kind, res.Vlen, res.Inst = "substr", p.sub-1, 1
 		res.Cases = substrCases(res.Vlen)
@@ -483,6 +536,20 @@ func runPlan(idx int, p respPlan, t *respTargets, root string) respRun {
 			ammoType, file, text = "grpc/scenario", filepath.Join(dir, "payload.yaml"), grpcScenarioPayload(p.letters)
 		}
 	}
+	var gate *scentarget.Gate
+	if p.avail != "" {
+		gate = scentarget.NewGate(target)
+		defer gate.Close()
+		target = gate.Addr()
+		switch {
+		case strings.HasPrefix(p.gun, "grpc"):
+			extra += "      timeout: 200ms\n"
+		case p.gun == "http2":
+			extra = "      ssl: true\n      tls-handshake-timeout: 300ms\n      response-header-timeout: 300ms\n"
+		default:
+			extra += "      response-header-timeout: 200ms\n"
+		}
+	}
 	log := zap.NewNop()
 	if p.debug {
 		extra += fmt.Sprintf("      answlog:\n        enabled: true\n        filter: all\n        path: %s\n", filepath.Join(dir, "answ.log"))
@@ -499,7 +566,11 @@ func runPlan(idx int, p respPlan, t *respTargets, root string) respRun {
 	if gunType == "https" {
 		gunType = "http"
 	}
-	conf, err := buildEngineConf(poolYAML(fmt.Sprintf("r%d", idx), gunType, ammoType, file, target, res.Shots, res.Inst, extra), idx%2 == 1)
+	pool := poolYAML(fmt.Sprintf("r%d", idx), gunType, ammoType, file, target, res.Shots, res.Inst, extra)
+	if p.avail != "" {
+		pool = availPoolYAML(fmt.Sprintf("r%d", idx), gunType, ammoType, file, target, extra)
+	}
+	conf, err := buildEngineConf(pool, idx%2 == 1)
 	if err != nil {
 		res.BuildErr = err.Error()
 		return res
@@ -510,10 +581,24 @@ func runPlan(idx int, p respPlan, t *respTargets, root string) respRun {
 	conf.Engine.Pools[0].Aggregator = agg
 	eng := engine.New(log, m, conf.Engine)
 	t0 := time.Now()
+	if gate != nil {
+		// the history: away as soon as the first sample is there (at the latest after 1 s), back 1.8 s after the start
+		go func() {
+			for time.Since(t0) < time.Second && len(agg.Samples()) == 0 {
+				time.Sleep(2 * time.Millisecond)
+			}
+			gate.SetMode(strings.TrimPrefix(p.avail, "av"))
+			time.Sleep(time.Until(t0.Add(1800 * time.Millisecond)))
+			gate.SetMode("up")
+		}()
+	}
 	res.RunErr = runEngineWith(eng, runLimit)
 	res.WallMs = int(time.Since(t0) / time.Millisecond)
 	res.Fired, res.Answered = int(m.Request.Get()), int(m.Response.Get())
 	res.Seen = int(seen() - seenBefore)
+	if gate != nil {
+		res.Downs = int(gate.Downs.Load())
+	}
 	if p.tls {
 		res.Faults = int(t.tls.Faults.Load())
 		t.tls.SetMode("")
@@ -581,7 +666,7 @@ func responsesMain(args []string) {
 	defer w.Close()
 	results := make([]respRun, len(plans))
 	heavy := func(p respPlan) bool {
-		return p.timeout || p.letters[0] == "big" || p.letters[0] == "hugeheader" || p.letters[0] == "gkill"
+		return p.avail != "" || p.timeout || p.letters[0] == "big" || p.letters[0] == "hugeheader" || p.letters[0] == "gkill"
 	}
 	order := []int{}
 	for j := range plans {
@@ -622,5 +707,115 @@ func responsesMain(args []string) {
 	}
 	for j := range results {
 		w.Emit(results[j])
+	}
+}
+
+// ---------------------------------------------------------------- host-name target that is down at construction
+//
+// vdrive dnsrace: run as a process of its own (a fatal runtime error cannot be recovered; the parent records the death
+// of this process as the observation).  Every round: the http gun is configured with a HOST-NAME target
+// (localhost:<port>, default dns-cache) on whose port nothing listens, so the pre-resolve at construction fails and
+// the DNS-caching dialer stays in place; N instances fire one shot each (refused), then the target comes up and
+// 3N tokens fall due at the same instant: all instances complete their first dial by name together.
+func dnsRound(idx, n int, root string) respRun {
+	res := respRun{Run: idx, Gun: "http", Posts: "none", Shots: 4 * n, Inst: n, Samples: []respSample{}, Variant: "plain",
+		Kind: "letters", Cases: []modCase{}}
+	for i := 0; i < res.Shots; i++ {
+		res.Ammo = append(res.Ammo, letterOf("avrefused"))
+		res.AmmoS = append(res.AmmoS, "avrefused")
+	}
+	dir := filepath.Join(root, fmt.Sprintf("d%d", idx))
+	if err := os.MkdirAll(dir, 0o755); err != nil {
+		panic(err)
+	}
+	defer os.RemoveAll(dir)
+	file := filepath.Join(dir, "ammo.uri")
+	if err := os.WriteFile(file, []byte(uriAmmo(res.AmmoS)), 0o644); err != nil {
+		panic(err)
+	}
+	for attempt := 0; ; attempt++ {
+		addr := scentarget.Reserve()
+		_, port, _ := net.SplitHostPort(addr)
+		pool := fmt.Sprintf(`pools:
+  - id: "d%d"
+    ammo:
+      type: uri
+      file: %s
+    result:
+      type: discard
+    gun:
+      type: http
+      target: localhost:%s
+    rps:
+      - type: once
+        times: %d
+      - type: const
+        ops: 0
+        duration: 400ms
+      - type: once
+        times: %d
+    startup:
+      - type: once
+        times: %d
+`, idx, file, port, n, 3*n, n)
+		conf, err := buildEngineConf(pool, idx%2 == 1) // the pre-resolve of the target fails here: nothing listens
+		if err != nil {
+			res.BuildErr = err.Error()
+			return res
+		}
+		agg := &scnRecAggregator{}
+		m := engine.Metrics{Request: &monitoring.Counter{}, Response: &monitoring.Counter{},
+			InstanceStart: &monitoring.Counter{}, InstanceFinish: &monitoring.Counter{}}
+		conf.Engine.Pools[0].Aggregator = agg
+		eng := engine.New(zap.NewNop(), m, conf.Engine)
+		t0 := time.Now()
+		up := make(chan *scentarget.RawTarget, 1)
+		go func() {
+			for time.Since(t0) < 250*time.Millisecond && len(agg.Samples()) < n {
+				time.Sleep(time.Millisecond)
+			}
+			t, err := scentarget.NewRawTargetAt(addr)
+			if err != nil {
+				up <- nil
+				return
+			}
+			up <- t
+		}()
+		res.RunErr = runEngineWith(eng, runLimit)
+		tgt := <-up
+		if tgt == nil { // somebody else took the port in between: play the round again
+			if attempt < 3 {
+				continue
+			}
+			panic("dnsrace: could not listen on the reserved port")
+		}
+		res.WallMs = int(time.Since(t0) / time.Millisecond)
+		res.Fired, res.Answered = int(m.Request.Get()), int(m.Response.Get())
+		res.Seen = int(tgt.Requests())
+		tgt.Close()
+		for _, s := range agg.Samples() {
+			res.Samples = append(res.Samples, respSample{Proto: s.Proto, Err: s.Err, Empty: s.Empty, Tags: s.Tags, ErrS: s.ErrS,
+				Letter: letterOf(strings.Split(s.Tags, "|")[0])})
+		}
+		return res
+	}
+}
+
+func dnsRaceMain(args []string) {
+	fs := flag.NewFlagSet("dnsrace", flag.ExitOnError)
+	out := fs.String("out", "", "trace (ndjson, one line per round)")
+	rounds := fs.Int("rounds", 6, "histories to play (fresh port, i.e. fresh cache key, each)")
+	inst := fs.Int("instances", 32, "instances dialling together")
+	fs.Parse(args)
+	importAll()
+	root, err := os.MkdirTemp("", "verif-dns-")
+	if err != nil {
+		panic(err)
+	}
+	defer os.RemoveAll(root)
+	w := vt.Create(*out)
+	defer w.Close()
+	for i := 0; i < *rounds; i++ {
+		w.Emit(dnsRound(9000+i, *inst, root))
 	}
 }
